@@ -125,8 +125,10 @@ def side(draw, n, keys, tag):
 @st.composite
 def join_case(draw, tier="quick", max_rows=None):
     mr = max_rows or (6 if tier == "quick" else 12)
-    nl = draw(st.one_of(st.integers(0, mr), st.integers(1, 4)))
-    nr = draw(st.one_of(st.integers(0, mr), st.integers(1, 4)))
+    # mostly small sides; about one side in seven is long (9..24 rows: more rows than a small hash table / set holds in order)
+    size = st.one_of(st.integers(0, mr), st.integers(1, 4), st.integers(0, mr), st.integers(1, 4), st.integers(0, mr),
+                     st.integers(1, 4), st.integers(9, 24))
+    nl, nr = draw(size), draw(size)
     kinds, lk, rk = draw(key_columns(nl, nr))
     L = draw(side(nl, lk, "L"))
     R = draw(side(nr, rk, "R"))
